@@ -377,6 +377,11 @@ class SyslogHandler(Handler):
     def reopen(self):
         pass
 
+    def remove(self):
+        # nothing to remove: clearing the logs of a program that also logs
+        # to syslog must still reach its file handlers
+        pass
+
     def _syslog(self, msg): # pragma: no cover
         # this exists only for unit test stubbing
         syslog.syslog(msg)
